@@ -2,6 +2,7 @@ import WebAuthnModel.Spec.Attestation
 import WebAuthnModel.Theorems.C12
 import WebAuthnModel.Theorems.C08
 import WebAuthnModel.Proofs.JwsLemmas
+import WebAuthnModel.Proofs.X509SigLemmas
 /-
   C04 — each attestation statement verifier accepts exactly when the requirements of its format hold
   (and C05: the attestation type / trust path reported).  For every environment.
@@ -188,7 +189,7 @@ theorem certAAGUID_spec (env : Prog.Env) (c : CertView) :
 theorem packedCert_iff (env : Prog.Env) (o : AttObj) (h der : Bytes) (c : CertView) :
     Prog.run env (verifyPackedCert o h der c) = true ↔
       ∃ d acd, Attested o d acd ∧
-        CertSigOK env der (getAlgorithm o.stmt) (o.authData ++ h) (getSignature o.stmt) ∧
+        CertSigOK env der c (getAlgorithm o.stmt) (o.authData ++ h) (getSignature o.stmt) ∧
         c.version = 3 ∧ c.country ≠ [] ∧ c.org ≠ [] ∧
         c.orgUnit = Spec.Att.s "Authenticator Attestation" ∧ c.commonName ≠ [] ∧ c.isCA = false ∧
         (∀ e, findExt c [1, 3, 6, 1, 4, 1, 45724, 1, 1, 4] = some e →
@@ -201,12 +202,12 @@ theorem packedCert_iff (env : Prog.Env) (o : AttObj) (h der : Bytes) (c : CertVi
     have hs : Att.s "Authenticator Attestation" = Spec.Att.s "Authenticator Attestation" := rfl
     simp only [Prog.run_bind, run_ite, Prog.run_pure, hs]
     rcases certAAGUID_spec env c with ⟨hf, hr⟩ | ⟨e, hf, hc, hr⟩ | ⟨e, hf, hc, hb, hr⟩ | ⟨e, b, hf, hc, hb, hl, hr⟩
-    · simp [hf, hr, run_askBool]
+    · simp [hf, hr, X509SigLemmas.run_certCheckSig]
     · simp [hf, hr, hc]
     · simp [hf, hr, hc]
       intro _ _ _ _ _ _ _ h1 h2
       exact hb _ h1 h2
-    · simp [hf, hr, hc, hb, run_askBool]
+    · simp [hf, hr, hc, hb, X509SigLemmas.run_certCheckSig]
       constructor
       · rintro ⟨h1, h2, h3, h4, h5, h6, h7, rfl⟩
         exact ⟨d, acd, ⟨rfl, rfl⟩, h1, h2, h3, h4, h5, h6, h7, rfl, hl⟩
@@ -325,7 +326,7 @@ theorem u2f_iff (env : Prog.Env) (o : AttObj) (h : Bytes) (res : Result) :
             split at hr
             next hsig =>
               cases hr
-              rw [run_askBool, C12.algX509_spec] at hsig
+              rw [X509SigLemmas.run_certCheckSig, C12.algX509_spec] at hsig
               exact ⟨der, c, d, acd, alg, crv, x, y, px, py, (unmarshal_ok_iff _ _ _).1 hc, hk,
                 (attested_iff _ _ _).1 hA, (credKey_iff _ _).1 hK, hsig, rfl⟩
             · cases hr
@@ -336,9 +337,9 @@ theorem u2f_iff (env : Prog.Env) (o : AttObj) (h : Bytes) (res : Result) :
     have hx' := (unmarshal_ok_iff _ _ _).2 hx
     have hA' := (attested_iff _ _ _).2 hA
     have hK' := (credKey_iff _ _).2 hK
-    have hsig' : Prog.run env (askBool (.x509CheckSig der (Cose.algX509 alg)
-        (u2fMessage d.rpIdHash h acd.credentialId x y) (getSignature o.stmt))) = true := by
-      rw [run_askBool, C12.algX509_spec]; exact hsig
+    have hsig' : Prog.run env (certCheckSig der c alg
+        (u2fMessage d.rpIdHash h acd.credentialId x y) (getSignature o.stmt)) = true := by
+      rw [X509SigLemmas.run_certCheckSig, C12.algX509_spec]; exact hsig
     simp [verifyU2F, hx', hk, hA', hK', hsig']
 
 /-! ### android-key -/
@@ -388,7 +389,7 @@ theorem androidKey_iff (env : Prog.Env) (o : AttObj) (h : Bytes) (res : Result) 
                           simp only [Bool.not_eq_false, Bool.not_eq_eq_eq_not, Bool.not_true,
                             Bool.or_eq_true, not_or, Bool.not_eq_true, ne_eq, Decidable.not_not,
                             List.contains_iff_mem] at hsig hkeq hch hall horig hp
-                          rw [run_askBool, C12.algX509_spec] at hsig
+                          rw [X509SigLemmas.run_certCheckSig, C12.algX509_spec] at hsig
                           rw [keysEqual_iff] at hkeq
                           exact ⟨der, c, rest, d, acd, k, e, kd, (unmarshal_ok_iff _ _ _).1 hc,
                             (attested_iff _ _ _).1 hA, (credKey_iff _ _).1 hK, hsig, hkeq.1, hkeq.2, hf, hkd, hch,
@@ -399,9 +400,9 @@ theorem androidKey_iff (env : Prog.Env) (o : AttObj) (h : Bytes) (res : Result) 
     have hx' := (unmarshal_ok_iff _ _ _).2 hx
     have hA' := (attested_iff _ _ _).2 hA
     have hK' := (credKey_iff _ _).2 hK
-    have hsig' : Prog.run env (askBool (.x509CheckSig der (Cose.algX509 (getAlgorithm o.stmt))
-        (o.authData ++ h) (getSignature o.stmt))) = true := by
-      rw [run_askBool, C12.algX509_spec]; exact hsig
+    have hsig' : Prog.run env (certCheckSig der c (getAlgorithm o.stmt)
+        (o.authData ++ h) (getSignature o.stmt)) = true := by
+      rw [X509SigLemmas.run_certCheckSig, C12.algX509_spec]; exact hsig
     have hkeq : keysEqual c.key k.material = true := (keysEqual_iff _ _).2 ⟨hk1, hk2⟩
     simp [verifyAndroidKey, hx', hA', hK', hsig', hkeq, hoid, horg, hpur, hf, hkd, hch, ha1, ha2, horig, hp]
 
@@ -518,7 +519,7 @@ theorem tpm_iff (env : Prog.Env) (o : AttObj) (h : Bytes) (res : Result) :
                               rw [keysEqual_iff] at hkeq
                               rw [run_hashIsEqual, C12.algHash_spec] at hextra
                               rw [run_hashIsEqual] at hnameOK
-                              rw [run_askBool, C12.algX509_spec] at hsig
+                              rw [X509SigLemmas.run_certCheckSig, C12.algX509_spec] at hsig
                               rw [run_hardwareDetailsOK] at hhw
                               exact ⟨der, c, rest, _, ciRaw, ci, paRaw, pa, d, acd, k, pk, paEnc, nameAlg, nameVal,
                                 hashId, ciEnc, (unmarshal_ok_iff _ _ _).1 hc, rfl, hciRaw, hci, hpaRaw, hpa,
@@ -540,9 +541,9 @@ theorem tpm_iff (env : Prog.Env) (o : AttObj) (h : Bytes) (res : Result) :
     have hextra' : Prog.run env (hashIsEqual (Cose.algHash (getAlgorithm o.stmt)) (o.authData ++ h) ci.extraData) = true := by
       rw [run_hashIsEqual, C12.algHash_spec]; exact hextra
     have hnameOK' : Prog.run env (hashIsEqual hashId paEnc nameVal) = true := (run_hashIsEqual _ _ _ _).2 hnameOK
-    have hsig' : Prog.run env (askBool (.x509CheckSig der (Cose.algX509 (getAlgorithm o.stmt)) ciEnc
-        (getSignature o.stmt))) = true := by
-      rw [run_askBool, C12.algX509_spec]; exact hsig
+    have hsig' : Prog.run env (certCheckSig der c (getAlgorithm o.stmt) ciEnc
+        (getSignature o.stmt)) = true := by
+      rw [X509SigLemmas.run_certCheckSig, C12.algX509_spec]; exact hsig
     have hhw' := (run_hardwareDetailsOK _).2 hhw
     subst hnalg
     simp [verifyTPM, hx', hciRaw, hci, hpaRaw, hpa, hA', hK', hpk, hkeq, hgen, htag, hmagic, htype, hextra', hpaEnc,
